@@ -1,10 +1,12 @@
 (* Props/C13.v — ISO 8601 durations and intervals parse to their exact value.  Statements only; every proof is `exact <lemma>`.
-   py_dur / rs_dur / rs_raw are the executable models of Model/DurParse.v that the correspondence run of ./check C13 compares with
-   pendulum.parse / parse_iso8601 in both backends (strings = lists of code points; floats = SpecFloat binary64).
+   py_dur_c / rs_dur_c / rs_raw are the executable models of Model/DurParse.v that the correspondence run of ./check C13 compares with
+   pendulum.parse / parse_iso8601 in both backends (strings = lists of code points; floats = SpecFloat binary64); py_dur / rs_dur are the
+   code inside the `try:` blocks whose `except OverflowError: raise ParserError` clause is the outermost step (dur_catch_outermost:
+   py_dur_c = ov_to_ve o py_dur, rs_dur_c = ov_to_ve o rs_dur, where ov_to_ve only turns OverflowError into ValueError).
    render_dur y mo d t is the text P[nY][nM][nD] (t = None) or P[nY][nM][nD]T[nH][nM][nS] (t = Some (h, mi, s)) for optional digit strings;
    owf/twf: each present component is a non-empty string of ASCII digits (leading zeros allowed, any length); oval = its value. *)
 From Coq Require Import ZArith List Bool.
-From PV Require Import Lib.PyBase Gen.DurRegex Model.DurParse Model.DurSpec Proofs.C13Facts Proofs.C13Int Proofs.C13Py Proofs.C13Main Proofs.C13Rej.
+From PV Require Import Lib.PyBase Gen.DurRegex Model.DurParse Model.DurSpec Proofs.C13Facts Proofs.C13Int Proofs.C13Py Proofs.C13Main Proofs.C13Rej Proofs.C13Catch.
 Import ListNotations.
 Open Scope Z_scope.
 
@@ -36,8 +38,8 @@ Proof. exact rs_int_T. Qed.
 Print Assumptions dur_int_rs_raw.
 
 (* what native_of means: in range it is the exact value of the components (spec: exact rational, here an integer number of
-   microseconds), years and months kept as given; out of range the constructor's OverflowError escapes — the property asks
-   for a rejection (ValueError), so the second half is the universally quantified form of finding too-large-overflowerror *)
+   microseconds), years and months kept as given; out of range the constructor raises OverflowError INSIDE the try block — the
+   callers' except clause turns it into the rejection the property asks for (dur_too_large_rejected below) *)
 Theorem dur_int_exact : forall y mo d h mi s, 0 <= y -> 0 <= mo -> 0 <= d -> 0 <= h -> 0 <= mi -> 0 <= s ->
   let x := int_us y mo d h mi s in
   (x / US_PER_DAY <= 999999999 ->
@@ -54,9 +56,9 @@ Proof. exact rs_eq_py_int. Qed.
 Print Assumptions rs_eq_py.
 
 (* ---- refutations (witnesses evaluated in the kernel) *)
-(* P4294967297D: 1 day in the compiled parser (wrap-around); the pure-Python parser overflows instead *)
-Theorem dur_rs_wrap_refuted : rs_dur s_wrap = Ok (0, 0, 1, 0, 0) /\ py_dur s_wrap = Raise E_OverflowError.
-Proof. exact rs_wrap_witness. Qed.
+(* P4294967297D: 1 day in the compiled parser (wrap-around); the pure-Python parser rejects it (more days than a timedelta holds) *)
+Theorem dur_rs_wrap_refuted : rs_dur_c s_wrap = Ok (0, 0, 1, 0, 0) /\ py_dur_c s_wrap = Raise E_ValueError.
+Proof. split; apply too_large_rejected_witness. Qed.
 Print Assumptions dur_rs_wrap_refuted.
 
 (* P1.25D: the pure-Python parser returns 3 days 12 h, not a nearest microsecond of the exact value; the compiled parser is right *)
@@ -99,10 +101,50 @@ Theorem dur_sec_frac_refuted_py :
 Proof. exact py_19999999s_witness. Qed.
 Print Assumptions dur_sec_frac_refuted_py.
 
-(* P99999999999D: OverflowError instead of a rejection, both backends *)
-Theorem dur_too_large_refuted : py_dur s_big = Raise E_OverflowError /\ rs_dur s_big = Raise E_OverflowError.
-Proof. exact too_large_witness. Qed.
-Print Assumptions dur_too_large_refuted.
+(* ---- durations that do not fit a timedelta are rejected (the former finding too-large-overflowerror, repaired) *)
+(* the except clause is the outermost step of both pipelines, on every string *)
+Theorem dur_catch_outermost : forall s, py_dur_c s = ov_to_ve (py_dur s) /\ rs_dur_c s = ov_to_ve (rs_dur s).
+Proof. intros s. split; [apply py_dur_c_eq|apply rs_dur_c_eq]. Qed.
+Print Assumptions dur_catch_outermost.
+
+(* every string, both backends: a duration parse never lets an OverflowError out *)
+Theorem dur_never_overflowerror : forall s, py_dur_c s <> Raise E_OverflowError /\ rs_dur_c s <> Raise E_OverflowError.
+Proof. exact dur_no_overflow. Qed.
+Print Assumptions dur_never_overflowerror.
+
+(* integer components of any length whose exact total exceeds timedelta's 999999999 days: ValueError (ParserError), pure Python on
+   the values themselves, compiled parser on the values modulo 2^32; at or below the bound the pure-Python result is the exact value *)
+Theorem dur_too_large_rejected : forall y mo d t, owf y -> owf mo -> owf d -> twf t ->
+  (999999999 < int_us (oval y) (oval mo) (oval d) (oval (t_h t)) (oval (t_mi t)) (oval (t_s t)) / US_PER_DAY ->
+     py_dur_c (render_dur y mo d t) = Raise E_ValueError) /\
+  (int_us (oval y) (oval mo) (oval d) (oval (t_h t)) (oval (t_mi t)) (oval (t_s t)) / US_PER_DAY <= 999999999 ->
+     exists o, py_dur_c (render_dur y mo d t) = Ok o /\
+               exact_obs o (oval y) (oval mo) (spec_num 0 (oval d) (oval (t_h t)) (oval (t_mi t)) (oval (t_s t)) 1 []) (spec_den [])) /\
+  (nonbare y mo d t ->
+   999999999 < int_us (u32 (oval y)) (u32 (oval mo)) (u32 (oval d)) (u32 (oval (t_h t))) (u32 (oval (t_mi t))) (u32 (oval (t_s t))) / US_PER_DAY ->
+     rs_dur_c (render_dur y mo d t) = Raise E_ValueError) /\
+  (nonbare y mo d t ->
+   int_us (u32 (oval y)) (u32 (oval mo)) (u32 (oval d)) (u32 (oval (t_h t))) (u32 (oval (t_mi t))) (u32 (oval (t_s t))) / US_PER_DAY <= 999999999 ->
+     rs_dur_c (render_dur y mo d t) = rs_dur (render_dur y mo d t)).
+Proof.
+  intros y mo d t Hy Hmo Hd Ht. repeat split.
+  - apply py_too_large_rejected; assumption.
+  - apply py_in_range_exact; assumption.
+  - intros Hnb. apply rs_too_large_rejected; assumption.
+  - intros Hnb. apply rs_in_range_unchanged; assumption.
+Qed.
+Print Assumptions dur_too_large_rejected.
+
+(* the former witnesses: P99999999999D is rejected by both backends *)
+Theorem dur_too_large_witness_rejected : py_dur_c s_big = Raise E_ValueError /\ rs_dur_c s_big = Raise E_ValueError.
+Proof. split; apply too_large_rejected_witness. Qed.
+Print Assumptions dur_too_large_witness_rejected.
+
+(* the hypotheses of dur_too_large_rejected are satisfiable on both sides of the bound (P1000000000D / P999999999D) *)
+Example dur_too_large_hyps : let d := Some [49;48;48;48;48;48;48;48;48;48] in let d' := Some [57;57;57;57;57;57;57;57;57] in
+  owf d /\ owf d' /\ twf None /\ nonbare None None d None /\
+  999999999 < int_us 0 0 (oval d) 0 0 0 / US_PER_DAY /\ int_us 0 0 (oval d') 0 0 0 / US_PER_DAY <= 999999999.
+Proof. exact too_large_hyps. Qed.
 
 (* dur_order_rejected is false for the compiled parser: P0D1Y, PT1H1H, P2D1W are accepted (the pure-Python parser rejects them) *)
 Theorem dur_order_rejected_refuted_rs :
@@ -122,7 +164,8 @@ Print Assumptions dur_frac_ym_rejected.
 
 (* dur_frac_1digit_partial: one fraction digit (all ten digits, '.' and ',') is parsed to the exact value by the pure-Python parser on
    D, H, M, S and by the compiled parser on D, H, M, S, W — checked in the kernel for the integer parts of `ips` only
-   (missing for the full claim: universal quantification over the integer part; the float carries do not depend on it, not yet proved) *)
+   (the universal forms over EVERY integer part are dur_frac_1digit_py / dur_frac_1digit_rs / dur_frac_1digit_ok_py / dur_frac_1digit_ok_rs /
+   dur_frac_1digit_py_weeks_refuted_all at the end of this file; this finite kernel check is kept as it was) *)
 Theorem dur_frac_1digit_partial :
   forallb (fun ip => one_digit_ok py_dur false c_D 86400 ip && one_digit_ok py_dur true c_H 3600 ip &&
                      one_digit_ok py_dur true c_M 60 ip && one_digit_ok py_dur true c_S 1 ip) ips = true /\
@@ -161,3 +204,82 @@ Theorem dur_frac_ym_rejected_regex : forall ds sep fs c r, digits ds -> sepc sep
   py_dur_re (c_P :: ds ++ sep :: fs ++ c :: r) = Raise E_ValueError.
 Proof. exact py_frac_ym_re. Qed.
 Print Assumptions dur_frac_ym_rejected_regex.
+
+(* ------------------------------------------------------------ one fraction digit, for EVERY integer part (Proofs/C13Frac.v)
+   Text one_digit_text time ip sep dg unit = P[T]<ip><sep><dg><unit>: ip any non-empty ASCII digit string (leading zeros allowed, any
+   length), sep '.' or ',', dg one ASCII digit.  exact_us unit_secs v dg = (v + (dg-48)/10) * unit_secs seconds in microseconds (an integer).
+   native_of 0 0 x: the exact x while x is inside timedelta's range (x / US_PER_DAY <= 999999999, see dur_int_exact), the constructor's
+   OverflowError beyond (inside the try block; the callers see ValueError: dur_catch_outermost).  The integer part reaches the constructor
+   as an integer argument in both parsers, so the float arithmetic acts on dg/10 alone: it is evaluated once per digit in the kernel and
+   the integer part is PROVED to add exactly (no real-number axioms: closed under the global context). *)
+From PV Require Import Proofs.C13Frac.
+
+(* dur_frac_1digit_py: the pure-Python parser on D, H, M, S — the honest bound is timedelta's range only *)
+Theorem dur_frac_1digit_py : forall ip sep dg, digits ip -> sepc sep -> is_digit dg = true ->
+  py_dur (one_digit_text false ip sep dg c_D) = native_of 0 0 (exact_us 86400 (dval ip) dg) /\
+  py_dur (one_digit_text true ip sep dg c_H) = native_of 0 0 (exact_us 3600 (dval ip) dg) /\
+  py_dur (one_digit_text true ip sep dg c_M) = native_of 0 0 (exact_us 60 (dval ip) dg) /\
+  py_dur (one_digit_text true ip sep dg c_S) = native_of 0 0 (exact_us 1 (dval ip) dg).
+Proof. exact one_digit_py_all. Qed.
+Print Assumptions dur_frac_1digit_py.
+
+(* dur_frac_1digit_rs: the compiled parser on D, H, M, S and W — the integer part modulo 2^32 (its u32 field), then timedelta's range *)
+Theorem dur_frac_1digit_rs : forall ip sep dg, digits ip -> sepc sep -> is_digit dg = true ->
+  rs_dur (one_digit_text false ip sep dg c_D) = native_of 0 0 (exact_us 86400 (u32 (dval ip)) dg) /\
+  rs_dur (one_digit_text true ip sep dg c_H) = native_of 0 0 (exact_us 3600 (u32 (dval ip)) dg) /\
+  rs_dur (one_digit_text true ip sep dg c_M) = native_of 0 0 (exact_us 60 (u32 (dval ip)) dg) /\
+  rs_dur (one_digit_text true ip sep dg c_S) = native_of 0 0 (exact_us 1 (u32 (dval ip)) dg) /\
+  rs_dur (one_digit_text false ip sep dg c_W) = native_of 0 0 (exact_us 604800 (u32 (dval ip)) dg).
+Proof. exact one_digit_rs_all. Qed.
+Print Assumptions dur_frac_1digit_rs.
+
+(* the same in the vocabulary of dur_frac_1digit_partial (one_digit_ok: all ten digits, both separators, result = THE exact value), now
+   for every integer part: while the largest of the ten values (digit 9) fits a timedelta — and, compiled parser, ip < 2^32 *)
+Theorem dur_frac_1digit_ok_py : forall ip, digits ip ->
+  (exact_us 86400 (dval ip) 57 / US_PER_DAY <= 999999999 -> one_digit_ok py_dur false c_D 86400 ip = true) /\
+  (exact_us 3600 (dval ip) 57 / US_PER_DAY <= 999999999 -> one_digit_ok py_dur true c_H 3600 ip = true) /\
+  (exact_us 60 (dval ip) 57 / US_PER_DAY <= 999999999 -> one_digit_ok py_dur true c_M 60 ip = true) /\
+  (exact_us 1 (dval ip) 57 / US_PER_DAY <= 999999999 -> one_digit_ok py_dur true c_S 1 ip = true).
+Proof. exact one_digit_ok_py. Qed.
+Print Assumptions dur_frac_1digit_ok_py.
+
+Theorem dur_frac_1digit_ok_rs : forall ip, digits ip -> dval ip < 4294967296 ->
+  (exact_us 86400 (dval ip) 57 / US_PER_DAY <= 999999999 -> one_digit_ok rs_dur false c_D 86400 ip = true) /\
+  (exact_us 3600 (dval ip) 57 / US_PER_DAY <= 999999999 -> one_digit_ok rs_dur true c_H 3600 ip = true) /\
+  (exact_us 60 (dval ip) 57 / US_PER_DAY <= 999999999 -> one_digit_ok rs_dur true c_M 60 ip = true) /\
+  (exact_us 1 (dval ip) 57 / US_PER_DAY <= 999999999 -> one_digit_ok rs_dur true c_S 1 ip = true) /\
+  (exact_us 604800 (dval ip) 57 / US_PER_DAY <= 999999999 -> one_digit_ok rs_dur false c_W 604800 ip = true).
+Proof. exact one_digit_ok_rs. Qed.
+Print Assumptions dur_frac_1digit_ok_rs.
+
+(* CURRENT CODE: the week fraction of the pure-Python parser is wrong with one digit for EVERY integer part (P<ip>.1W is ip weeks 16 h,
+   exact 16.8 h; outside timedelta's range it raises): the universal form of dur_frac_1digit_refuted_py_weeks *)
+Theorem dur_frac_1digit_py_weeks_refuted_all : forall ip, digits ip -> one_digit_ok py_dur false c_W 604800 ip = false.
+Proof. exact one_digit_py_weeks_all. Qed.
+Print Assumptions dur_frac_1digit_py_weeks_refuted_all.
+
+Theorem dur_frac_1digit_py_weeks_value : forall ip sep, digits ip -> sepc sep ->
+  py_dur (one_digit_text false ip sep 49 c_W) = native_of 0 0 (dval ip * 604800000000 + 57600000000).
+Proof. exact py_one_digit_W1. Qed.
+Print Assumptions dur_frac_1digit_py_weeks_value.
+
+(* the hypotheses are satisfiable ("P12.5D" = 12 d 12 h, "PT007,3H" = 7 h 18 min, compiled "P3.5W" = 24 d 12 h) ... *)
+Example dur_frac_1digit_hyps :
+  digits [49; 50] /\ sepc c_dot /\ sepc c_comma /\ is_digit 53 = true /\
+  one_digit_text false [49; 50] c_dot 53 c_D = [80; 49; 50; 46; 53; 68] /\
+  py_dur (one_digit_text false [49; 50] c_dot 53 c_D) = Ok (0, 0, 12, 43200, 0) /\
+  py_dur (one_digit_text true [48; 48; 55] c_comma 51 c_H) = Ok (0, 0, 0, 26280, 0) /\
+  rs_dur (one_digit_text false [51] c_dot 53 c_W) = Ok (0, 0, 24, 43200, 0) /\
+  exact_us 86400 (dval [49; 50]) 57 / US_PER_DAY <= 999999999.
+Proof. exact one_digit_sat. Qed.
+
+(* ... and both bounds are sharp: P999999999.9D is the last value inside timedelta's range, P1000000000.0D raises inside the try block
+   (both backends); PT4294967297.5S is 1.5 s in the compiled parser (u32 wrap-around, finding rs-u32-wrap) *)
+Theorem dur_frac_1digit_bounds_sharp :
+  (py_dur (one_digit_text false [57; 57; 57; 57; 57; 57; 57; 57; 57] c_dot 57 c_D) = Ok (0, 0, 999999999, 77760, 0) /\
+   py_dur (one_digit_text false [49; 48; 48; 48; 48; 48; 48; 48; 48; 48] c_dot 48 c_D) = Raise E_OverflowError /\
+   rs_dur (one_digit_text false [49; 48; 48; 48; 48; 48; 48; 48; 48; 48] c_dot 48 c_D) = Raise E_OverflowError) /\
+  (rs_dur (one_digit_text true [52; 50; 57; 52; 57; 54; 55; 50; 57; 55] c_dot 53 c_S) = Ok (0, 0, 0, 1, 500000) /\
+   py_dur (one_digit_text true [52; 50; 57; 52; 57; 54; 55; 50; 57; 55] c_dot 53 c_S) = Ok (0, 0, 49710, 23297, 500000)).
+Proof. exact (conj one_digit_range_sharp one_digit_u32_sharp). Qed.
+Print Assumptions dur_frac_1digit_bounds_sharp.
